@@ -16,19 +16,28 @@ Theorem C15_cov_sym_psd : forall eps r s, 0 < eps -> nn r -> nn s ->
 Proof. intros. split; [intros; apply cov_symmetric|intros; now apply quad_form_nonneg]. Qed.
 Print Assumptions C15_cov_sym_psd.
 
-(** each mean coordinate lies in the data's range scaled by c = S/(S+eps) (S the component's mass) *)
+(** each mean coordinate of a component that has mass lies in the data's range (the code divides by the mass itself, guarded only
+    against a zero mass: Gen.Mixture.mean_denominator); a component without mass keeps the mean 0 *)
+Theorem C15_mean_in_box : forall r s xs lo hi, nn r -> nn s -> 0 < mass r s ->
+  length r = length s -> length s = length xs -> (forall x, In x xs -> lo <= x /\ x <= hi) ->
+  lo <= mean_guarded r s xs /\ mean_guarded r s xs <= hi.
+Proof. exact mean_in_box. Qed.
+Print Assumptions C15_mean_in_box.
+Theorem C15_mean_of_dead_component : forall r s xs, nn r -> nn s -> mass r s == 0 -> mean_guarded r s xs == 0.
+Proof. exact mean_of_dead_component. Qed.
+Print Assumptions C15_mean_of_dead_component.
+
+(** the pinned tree's rule (denominator mass + 1e-10) only gives the box scaled by c = S/(S+eps), and leaves it: ten copies of 5 *)
 Theorem C15_mean_in_shrunk_box : forall eps r s xs lo hi, 0 < eps -> nn r -> nn s ->
   length r = length s -> length s = length xs -> (forall x, In x xs -> lo <= x /\ x <= hi) ->
   let c := mass r s / (mass r s + eps) in
   c * lo <= mean_coord eps r s xs /\ mean_coord eps r s xs <= c * hi.
 Proof. exact mean_in_shrunk_box. Qed.
 Print Assumptions C15_mean_in_shrunk_box.
-
-(** the full statement (c = 1) is refuted on the faithful model: ten copies of the point 5 *)
 Example C15_mean_outside_box_refuted :
   let xs := repeat 5 10 in let r := repeat 1 10 in let s := repeat (1#10) 10 in
-  mean_coord (1 # 10000000000) r s xs < 5.
-Proof. vm_compute. reflexivity. Qed.
+  mean_coord (1 # 10000000000) r s xs < 5 /\ mean_guarded r s xs == 5.
+Proof. split; vm_compute; reflexivity. Qed.
 
 Theorem C15_replication : forall (f : Q -> Q) xs ns, length xs = length ns ->
   total (map f (replicate xs ns)) == dot (map (fun n => inject_Z (Z.of_nat n)) ns) (map f xs).
